@@ -175,7 +175,9 @@ def cases(draw, nmax):
         case["ydtype"] = draw(st.sampled_from(["int16", "int32", "int64", "float32"]))
     if all(v in (0.0, 1.0) for v in w) and draw(st.integers(0, 3)) == 0:
         case["wdtype"] = draw(st.sampled_from(["bool", "uint8", "int64", "float32"]))
-    lamtype = draw(st.sampled_from(["float"] * 5 + ["int", "npint", "f32"]))
+    # a float32 lambda is combined with float64 arrays only: with bool / integer / float32 arrays Numba's typing rules would carry
+    # out parts of the elimination in single precision, which is not the float64 execution the property speaks about
+    lamtype = draw(st.sampled_from(["float"] * 5 + ["int", "npint"] + (["f32"] if "ydtype" not in case and "wdtype" not in case else [])))
     if lamtype != "float":
         case["lamtype"] = lamtype
     return case
